@@ -549,15 +549,52 @@ fn respell(r: &mut Rng, d: &RespDesc) -> RespDesc {
     }
     RespDesc { status: d.status, calls, body: d.body.clone() }
 }
+/// the final header map a description builds (names lower-cased, values in order)
+fn final_map(d: &RespDesc) -> Vec<(String, Vec<String>)> {
+    let mut m: Vec<(String, Vec<String>)> = vec![];
+    for c in &d.calls {
+        match c {
+            Op::Header { name, values, .. } => { let n = name.to_ascii_lowercase(); if let Some(e) = m.iter_mut().find(|e| e.0 == n) { e.1 = values.clone() } else { m.push((n, values.clone())) } }
+            Op::Append { name, values, .. } => { let n = name.to_ascii_lowercase(); if let Some(e) = m.iter_mut().find(|e| e.0 == n) { e.1.extend(values.iter().cloned()) } else { m.push((n, values.clone())) } }
+            Op::Remove { name } => { let n = name.to_ascii_lowercase(); m.retain(|e| e.0 != n) }
+            _ => {}
+        }
+    }
+    m
+}
+/// the same NUMBER of header values as `d`, distributed differently: the last value of a multi-valued header moves to
+/// another header (an existing one or a new name), so every value list of one side is a prefix of the other's or longer
+fn redistribute(r: &mut Rng, d: &RespDesc) -> RespDesc {
+    let mut m = final_map(d);
+    if !m.iter().any(|e| e.1.len() >= 2) {
+        // make one: two values under one name, then move one away
+        m.push(("zz-multi".into(), vec!["1".into(), "2".into()]));
+    }
+    let from = m.iter().position(|e| e.1.len() >= 2).unwrap();
+    let v = m[from].1.pop().unwrap();
+    let others: Vec<usize> = (0..m.len()).filter(|i| *i != from).collect();
+    if !others.is_empty() && r.coin(1, 2) { let to = others[r.below(others.len() as u64) as usize]; m[to].1.push(v); }
+    else { m.push(("zz-moved".into(), vec![v])); }
+    let calls = m.into_iter().map(|(n, vsx)| Op::Header { name: n, values: vsx, form: "values".into() }).collect();
+    RespDesc { status: d.status, calls, body: d.body.clone() }
+}
 fn eq_resp_case(r: &mut Rng) -> Value {
-    let a = resp_desc(r);
-    let b = match r.below(6) {
+    let mut a = resp_desc(r);
+    let pick = r.below(8);
+    if pick >= 6 {
+        // both sides from explicit maps: a has a multi-valued header, b the same number of values elsewhere
+        if !final_map(&a).iter().any(|e| e.1.len() >= 2) { a.calls.push(Op::Header { name: "zz-multi".into(), values: vec!["1".into(), "2".into()], form: "values".into() }); }
+    }
+    let b = match pick {
+        6 | 7 => redistribute(r, &a),
         0 | 1 => respell(r, &a),
         2 => { let mut b = respell(r, &a); if !b.calls.is_empty() { let i = r.below(b.calls.len() as u64) as usize; b.calls.remove(i); } b }
         3 => { let mut b = respell(r, &a); b.calls.push(Op::Append { name: r.pick(&RNAMES).to_string(), values: vec!["1".into()], form: "values".into() }); b }
         4 => { let mut b = respell(r, &a); match r.below(2) { 0 => b.status = 500, _ => b.body = Some("00".into()) } b }
         _ => resp_desc(r),
     };
+    // the pair is also given the other way round: a == that is not symmetric shows in either order
+    let (a, b) = if pick == 7 { (b, a) } else { (a, b) };
     let (ra, rb) = (build_resp(&a), build_resp(&b));
     json!({"kind": "eq_resp", "a": a, "b": b, "ab": ra == rb, "ba": rb == ra})
 }
